@@ -3,6 +3,7 @@ package catalog
 import (
 	"encoding/json"
 	"strconv"
+	"sync"
 
 	jschemaLib "github.com/jsightapi/jsight-schema-go-library"
 	"github.com/jsightapi/jsight-schema-go-library/notations/jschema"
@@ -66,15 +67,31 @@ func unmarshalJSightSchema(s jschemaLib.Schema) (Schema, error) {
 		return Schema{}, err
 	}
 
-	example, err := s.Example()
+	example, err := buildJSightExample(s)
 	if err != nil {
 		return Schema{}, err
 	}
 
 	ret := NewSchema(notation.SchemaNotationJSight)
 	ret.ContentJSight = astNodeToJsightContent(n, ret.UsedUserTypes, ret.UsedUserEnums)
-	ret.Example = string(example)
+	ret.Example = example
 	return ret, nil
+}
+
+// exampleMx serializes the building of examples: the example builder of the
+// schema library hands out slices of pooled buffers which it has already given
+// back to the pool, so two schemas can't build their examples at the same time.
+var exampleMx sync.Mutex
+
+func buildJSightExample(s jschemaLib.Schema) (string, error) {
+	exampleMx.Lock()
+	defer exampleMx.Unlock()
+
+	example, err := s.Example()
+	if err != nil {
+		return "", err
+	}
+	return string(example), nil // copy it before someone else gets the buffer
 }
 
 func astNodeToJsightContent(
